@@ -57,18 +57,16 @@ def isSepC (c : Nat) : Bool := c == 124 || c == 45
 def parseCols : Nat → Txt → Option (List Col × Txt)
   | 0, _ => none
   | fuel + 1, t =>
-    match t with
-    | 124 :: r => some ([], r)
-    | _ =>
-      let (seg, r) := t.span (fun c => !isSepC c)
-      match r with
-      | s :: r' =>
-        if seg.length < 2 then none else
-        match parseCols fuel r' with
-        | some (cs, r'') =>
-          some (⟨seg.filter (· != 32), seg.length - 2, if s = 45 then 32 else 124⟩ :: cs, r'')
-        | none => none
-      | [] => none
+    if t.head? = some 124 then some ([], t.tail) else
+    let sp := spanP (fun c => !isSepC c) t
+    match sp.2 with
+    | s :: r' =>
+      if sp.1.length < 2 then none else
+      match parseCols fuel r' with
+      | some (cs, r'') =>
+        some (⟨sp.1.filter (· != 32), sp.1.length - 2, if s = 45 then 32 else 124⟩ :: cs, r'')
+      | none => none
+    | [] => none
 
 /-- the port line: blanks, a bar, the columns, a bar, (CP and LCD titles, ignored) -/
 def parsePortLine (t : Txt) : Option (List Col) :=
@@ -76,14 +74,14 @@ def parsePortLine (t : Txt) : Option (List Col) :=
   | 124 :: r => (parseCols (r.length + 1) r).map (·.1)
   | _ => none
 
-/-- one pressure cell after its leading blank -/
+/-- one pressure cell after its leading blank: blanks up to the separator, or a number, a blank
+    and the separator -/
 def parseCell (c : Col) (t : Txt) : Option (Option Shown × Txt) :=
-  match t with
-  | 32 :: _ =>
+  if t.head? = some 32 then
     match expectSpaces (c.plen + 1) t with
     | some r => (expect c.sep r).map (fun r' => (none, r'))
     | none => none
-  | _ =>
+  else
     match parseNum t with
     | some (s, r) =>
       match expect 32 r with
@@ -108,8 +106,18 @@ def isTokC (c : Nat) : Bool := c != 32 && c != 124
 
 /-- `blanks token blanks |` -/
 def parseBarCell (t : Txt) : Option (Txt × Txt) :=
-  let (tok, r) := (skipSpaces t).span isTokC
-  (expect 124 (skipSpaces r)).map (fun r' => (tok, r'))
+  let sp := spanP isTokC (skipSpaces t)
+  (expect 124 (skipSpaces sp.2)).map (fun r' => (sp.1, r'))
+
+/-- flag symbols and line text: ` <symbols or one blank> <text>` -/
+def parseFlagsText (t : Txt) : Option (Txt × Txt) :=
+  match expect 32 t with
+  | some r7 =>
+    let sp := spanP (· != 32) r7
+    -- blank flag field: one blank
+    let r9 := if sp.1.isEmpty then sp.2.drop 1 else sp.2
+    (expect 32 r9).map (fun txt => (sp.1, txt))
+  | none => none
 
 /-- one table line: number, bar, cells, bar, CP, LCD, flags, text -/
 def parseRow (cols : List Col) (t : Txt) : Option RowView :=
@@ -127,13 +135,7 @@ def parseRow (cols : List Col) (t : Txt) : Option RowView :=
             | some (cp, r5) =>
               match parseBarCell r5 with
               | some (lcd, r6) =>
-                match expect 32 r6 with
-                | some r7 =>
-                  let (fl, r8) := r7.span (· != 32)
-                  -- blank flag field: one blank
-                  let r9 := if fl.isEmpty then r8.drop 1 else r8
-                  (expect 32 r9).map (fun txt => ⟨n, cells, cp, lcd, fl, txt⟩)
-                | none => none
+                (parseFlagsText r6).map (fun ft => ⟨n, cells, cp, lcd, ft.1, ft.2⟩)
               | none => none
             | none => none
           | none => none
@@ -170,8 +172,13 @@ def firstNat (t : Txt) : Option Nat :=
   | [] => none
   | r => some (natVal (spanDigits r).1)
 
-def titleCombined : Txt := ofString "Combined Analysis Report"
-def titleLcd : Txt := ofString "Loop-Carried Dependencies Analysis Report"
+/-- "Combined Analysis Report" -/
+def titleCombined : Txt :=
+  [67, 111, 109, 98, 105, 110, 101, 100, 32, 65, 110, 97, 108, 121, 115, 105, 115, 32, 82, 101, 112, 111, 114, 116]
+/-- "Loop-Carried Dependencies Analysis Report" -/
+def titleLcd : Txt :=
+  [76, 111, 111, 112, 45, 67, 97, 114, 114, 105, 101, 100, 32, 68, 101, 112, 101, 110, 100, 101, 110, 99, 105, 101,
+   115, 32, 65, 110, 97, 108, 121, 115, 105, 115, 32, 82, 101, 112, 111, 114, 116]
 
 def mapM' {α β} (f : α → Option β) : List α → Option (List β)
   | [] => some []
@@ -186,8 +193,8 @@ def parseTableLines (ls : List Txt) : Option TableView :=
   | _dash :: _headline :: portLine :: _sep :: rest =>
     match parsePortLine portLine with
     | some cols =>
-      let (rowLines, after) := rest.span (fun l => !l.isEmpty)
-      match mapM' (parseRow cols) rowLines, after with
+      let sp := spanP (fun (l : Txt) => !l.isEmpty) rest
+      match mapM' (parseRow cols) sp.1, sp.2 with
       | some rows, [] :: l :: _ =>
         if l.head? = some 45 then (firstNat l).map (fun n => ⟨cols, rows, .missing n⟩)
         else (parseSummary l).map (fun tl => ⟨cols, rows, tl⟩)
@@ -248,9 +255,19 @@ def parseLcdList (t : Txt) : Option (List LcdView) :=
   | some (_dash :: rest) => mapM' parseLcdLine (rest.takeWhile (fun l => !l.isEmpty))
   | _ => none
 
-def warnArch : Txt := ofString "WARNING: No micro-architecture was specified"
-def warnLength : Txt := ofString "WARNING: You are analyzing a large amount of instruction forms"
-def warnLcd : Txt := ofString "WARNING: LCD analysis timed out"
+/-- "WARNING: No micro-architecture was specified" -/
+def warnArch : Txt :=
+  [87, 65, 82, 78, 73, 78, 71, 58, 32, 78, 111, 32, 109, 105, 99, 114, 111, 45, 97, 114, 99, 104, 105, 116, 101, 99,
+   116, 117, 114, 101, 32, 119, 97, 115, 32, 115, 112, 101, 99, 105, 102, 105, 101, 100]
+/-- "WARNING: You are analyzing a large amount of instruction forms" -/
+def warnLength : Txt :=
+  [87, 65, 82, 78, 73, 78, 71, 58, 32, 89, 111, 117, 32, 97, 114, 101, 32, 97, 110, 97, 108, 121, 122, 105, 110, 103,
+   32, 97, 32, 108, 97, 114, 103, 101, 32, 97, 109, 111, 117, 110, 116, 32, 111, 102, 32, 105, 110, 115, 116, 114,
+   117, 99, 116, 105, 111, 110, 32, 102, 111, 114, 109, 115]
+/-- "WARNING: LCD analysis timed out" -/
+def warnLcd : Txt :=
+  [87, 65, 82, 78, 73, 78, 71, 58, 32, 76, 67, 68, 32, 97, 110, 97, 108, 121, 115, 105, 115, 32, 116, 105, 109, 101,
+   100, 32, 111, 117, 116]
 
 /-- which of the three user warnings a report text carries -/
 def detectWarnings (t : Txt) : Bool × Bool × Bool :=
